@@ -212,7 +212,7 @@ for kind, tag in (('obj', 'event'), ('none', 'no-input')):
              ensures=[('streams-made-once;ends-quietly-when-a-key-stream-ends', pb_post)] if kind == 'obj' else
                      [('a-None-input-ends-the-pattern-at-once', lambda c: z3.BoolVal(
                          not [e for e in c.trace if e[0] in ('yield', 'copy', 'next-values')] and c.resultv.k == 'none'))],
-             loops={0: Loop(early_exit=True, inv=pb_pass, kinds={'inevent': kind, 'event': (lambda e, n: V('obj', oid='havoc'))},
+             loops={0: Loop(early_exit='return', inv=pb_pass, kinds={'inevent': kind, 'event': (lambda e, n: V('obj', oid='havoc'))},
                             havoc_hook=remember_in)},
              fields={'Pbind': {'dict': 'obj'}, 'EventSoFar': {}}, class_modules={'Pbind': F, 'EventSoFar': F},
              hooks={'getattr': h_getattr, 'dictcomp': pb_dictcomp},
@@ -269,7 +269,7 @@ def quiet_post(name='inevent'):
 
 contract(F, 'Pchain.__embed__', props=('C13', 'C14'), params={'self': 'self', 'inevent': 'obj'},
          ensures=[('ends-quietly-with-the-current-input-when-a-stream-ends', quiet_post())],
-         loops={0: Loop(early_exit=True, inv=pc_pass, kinds={'inevent': 'obj', 'stream': (lambda e, n: V('obj', oid='havoc'))},
+         loops={0: Loop(inv=pc_pass, kinds={'inevent': 'obj', 'stream': (lambda e, n: V('obj', oid='havoc'))},
                         havoc_hook=remember_in)},
          fields={'Pchain': {'patterns': pc_patterns}, 'EventSoFar': {}}, class_modules={'Pchain': F, 'EventSoFar': F},
          hooks={'getattr': h_getattr, 'builtin_first': pc_builtin},
@@ -294,7 +294,7 @@ def pe_pass(c, L):
 
 contract(F, 'Pevent.__embed__', props=('C13', 'C14'), params={'self': 'self', 'inevent': 'obj'},
          ensures=[('ends-quietly-with-the-current-input-when-the-stream-ends', quiet_post())],
-         loops={0: Loop(early_exit=True, inv=pe_pass, kinds={'inevent': 'obj'}, havoc_hook=remember_in)},
+         loops={0: Loop(inv=pe_pass, kinds={'inevent': 'obj'}, havoc_hook=remember_in)},
          fields={'Pevent': {'pattern': 'obj', 'event': 'obj'}}, class_modules={'Pevent': F},
          hooks={'getattr': h_getattr}, policies={ST + '::stream': stream_pol},
          opts={'generator_trace': True}, native=False)
@@ -347,7 +347,7 @@ def pk_post(c):
 contract(F, 'Pkey.__embed__', props=('C13', 'C14'), params={'self': 'self', 'inevent': 'obj'},
          raises={},
          ensures=[('a-missing-key-or-an-ended-key-stream-ends-it-quietly', pk_post)],
-         loops={0: Loop(early_exit=True, inv=pk_pass, over=counts('length'), kinds={'inevent': 'obj', '_': 'int'},
+         loops={0: Loop(inv=pk_pass, over=counts('length'), kinds={'inevent': 'obj', '_': 'int'},
                         havoc_hook=remember_in)},
          fields={'Pkey': {'key': 'obj', 'length': 'obj'}}, class_modules={'Pkey': F},
          hooks={'getattr': h_getattr, 'getitem': pk_getitem},
@@ -498,7 +498,7 @@ def mono_post(c):
 
 contract(F, 'Pmono._embed_mono', props=('C14', 'C13'), params={'self': 'self', 'inevent': 'obj'},
          ensures=[('when-a-key-stream-ends-the-clean-up-runs-once-and-nothing-more-is-yielded', mono_post)],
-         loops={0: Loop(early_exit=True, inv=mono_pass,
+         loops={0: Loop(inv=mono_pass,
                         kinds={'inevent': 'obj', 'event': (lambda e, n: V('obj', oid='havoc')),
                                'server': opt_kind('server'), 'node_id': opt_kind('node_id'), 'mono_params': opt_kind('mono_params')},
                         havoc_hook=mono_remember)},
